@@ -13,6 +13,7 @@ pub mod c11;
 pub mod c12;
 pub mod c13;
 pub mod c14;
+pub mod c15;
 pub mod c16;
 pub mod c17;
 pub mod c18;
@@ -33,6 +34,7 @@ pub fn run(id: &str, tier: Tier) -> Option<Report> {
         "C12" => c12::run(tier),
         "C13" => c13::run(tier),
         "C14" => c14::run(tier),
+        "C15" => c15::run(tier),
         "C16" => c16::run(tier),
         "C17" => c17::run(tier),
         "C18" => c18::run(tier),
@@ -44,6 +46,7 @@ pub fn run(id: &str, tier: Tier) -> Option<Report> {
 pub fn worker(kind: &str) -> ! {
     match kind {
         "c04" => crate::engine::worker_main(c04::worker_subject),
+        "c15" => crate::engine::worker_main(c15::worker_subject),
         _ => {
             eprintln!("unknown worker kind {kind}");
             std::process::exit(2)
@@ -68,6 +71,7 @@ pub fn replay(path: &str) -> i32 {
         "C04" => c04::replay(case),
         "C11" => c11::replay(case),
         "C12" => c12::replay(case),
+        "C15" => c15::replay(case),
         "C16" => c16::replay(case),
         "C17" => c17::replay(case),
         "C18" => c18::replay(case),
